@@ -34,7 +34,7 @@ type faultState struct {
 	noFaults  bool
 }
 
-var c10Faults = []netsim.Fault{netsim.OK, netsim.FailErr, netsim.FailTimeout, netsim.FailShort, netsim.FailShortZero}
+var c10Faults = []netsim.Fault{netsim.OK, netsim.FailErr, netsim.FailTimeout, netsim.FailShort, netsim.FailShortZero, netsim.FailShortTimeout}
 
 type invalidReq struct {
 	name string
@@ -153,7 +153,7 @@ func faultBody(x *explore.Ctx, cfg WConfig, prog int, tier string, id string) {
 			}
 			f := c10Faults[x.Choose(len(c10Faults), fmt.Sprintf("fault@%s", kind))]
 			if f != netsim.OK {
-				if kind == netsim.OpSetWriteDeadline && (f == netsim.FailShort || f == netsim.FailShortZero) {
+				if kind == netsim.OpSetWriteDeadline && (f == netsim.FailShort || f == netsim.FailShortZero || f == netsim.FailShortTimeout) {
 					f = netsim.FailErr
 				}
 				fs.injected, fs.at, fs.kind, fs.opKind, fs.callIndex = true, index, f, kind, len(e.Calls)
@@ -170,6 +170,9 @@ func faultBody(x *explore.Ctx, cfg WConfig, prog int, tier string, id string) {
 			e.C.SetWriteDeadline(t2)
 			curDL = t2
 		}
+		if x.Choose(2, "WriteControl-deadline") == 1 {
+			e.CtlDL = t2.Add(time.Hour)
+		}
 		if v := x.Choose(1+len(invalidReqs)*3, "invalid-request"); v > 0 {
 			invalid = (v - 1) % len(invalidReqs)
 			fs.noFaults = true // invalid requests are judged on fault-free runs
@@ -180,6 +183,23 @@ func faultBody(x *explore.Ctx, cfg WConfig, prog int, tier string, id string) {
 		}
 		e.Between = issueInvalid
 		issueInvalid("before")
+		if id == "C20" {
+			// a close (or any fatal write error) recorded by another path while a message writer
+			// is still open: the next message must still end the abandoned one and give its
+			// buffer back
+			e.BeforeFinish = func() {
+				if e.open == nil || e.Failed || x.Choose(2, "close-sent-while-writer-open") == 0 {
+					return
+				}
+				zero := time.Time{}
+				e.callQuiet("epilogue:WriteControl(close)", func() error {
+					return e.C.WriteControl(websocket.CloseMessage, wsref.CloseBody(1000, ""), zero)
+				}).CtlDL = &zero
+				e.callQuiet("epilogue:NextWriter", func() error { _, err := e.C.NextWriter(websocket.BinaryMessage); return err })
+				e.open, e.openMsg = nil, nil
+				e.Failed = true
+			}
+		}
 	}
 	defer func() { wpOnEnv = nil }()
 	e := writePhase(x, cfg, prog, tier, nil, onErr)
@@ -200,6 +220,11 @@ func faultBody(x *explore.Ctx, cfg WConfig, prog int, tier string, id string) {
 		}
 	}
 	if id == "C20" {
+		if fs.injected && e.Failed {
+			// after a transport fault the application tries once more: this must end a writer
+			// that is still open (implicit close) and leave nothing checked out
+			e.callQuiet("epilogue:NextWriter", func() error { _, err := e.C.NextWriter(websocket.BinaryMessage); return err })
+		}
 		c20Oracle(x, e, fs, key)
 	}
 	if !fs.injected {
